@@ -105,6 +105,13 @@ def gen_scene(rng, c, edges, n_frames=3):
                 if not ok:
                     continue
                 pts = np.round(pts * 4) / 4.0
+                if cell >= 2:
+                    # general position: a keypoint exactly half-way between two grid cells is a tie of the rough peak (error
+                    # exactly half a cell), and integral refinement - whose 5x5 window also sees the slope of a neighbour's
+                    # bump in the same channel - may then land a tenth of a pixel beyond half a cell (thorough sweep, scene 294).
+                    # Coordinates within half a pixel of such a midpoint are moved 0.75 px past it.
+                    r = (pts % cell) - cell / 2.0
+                    pts = np.where(np.abs(r) < 0.5, pts - r + 0.75, pts)
                 lo, hi = pts.min(axis=0), pts.max(axis=0)
                 gap = max(3 * cell, 2 * (0.75 * pcell + a + 0.75 * cell) + 2 * a, 8 * a)
                 if all(lo[0] - gap > b[1][0] or hi[0] + gap < b[0][0] or lo[1] - gap > b[1][1] or hi[1] + gap < b[0][1] for b in boxes):
